@@ -14,11 +14,11 @@ CLAIMED = {
             "Trusts rustc MIR and the role-based anchors (three private types of connection.rs); renaming them trips the fail-closed anchor check by design.",
             "DESIGN.md §3 C02"),
     "C03": ("call-sequence extraction per loop with argument provenance (two sibling encoders), cast-chain check on the tail loops, evaluated-constant census, dataflow region in Token::new, def-use provenance of key order",
-            "Static, thin but pointed: both composite-key encoders feed (checked big-endian u16 length, bytes, one zero byte) per component in that order and the value only for single keys; every tail byte of the Murmur3 finaliser is sign-extended through i8; the six incompressible constants and the rotation counts equal MurmurHash3_x64_128; Token::new maps i64::MIN to i64::MAX and finish() returns through it; key components are placed by partition-key position and fetched by bind-marker index. That the arithmetic equals the server's for all inputs and chunkings is numerical and not decided.",
+            "Static, thin but pointed: both composite-key encoders feed (checked big-endian u16 length, bytes, one zero byte) per component in that order and the value only for single keys; every tail byte of the Murmur3 finaliser is sign-extended through i8; the six incompressible constants and the rotation counts equal MurmurHash3_x64_128; Token::new maps i64::MIN to i64::MAX and finish() returns through it; key components are placed by partition-key position and fetched by bind-marker index, and the response parser numbers the partition-key positions in wire order before anything is sorted. That the arithmetic equals the server's for all inputs and chunkings is numerical and not decided.",
             "Trusts rustc MIR; reference constants transcribed by hand.",
             "DESIGN.md §3 C03"),
     "C05": ("CFG cut rules for the failover gates, dataflow regions on the statement type + call-graph reachability for randomness, def-use shape of the iterator composition, call-graph reachability of every selection predicate",
-            "Static, thin: every selection from the whole cluster in pick()/fallback() is reachable only through the true outcome of is_datacenter_failover_possible or `no preferred DC`; the LWT arms never reach shuffling/random choice and ask for the deterministic order; fallback() de-duplicates exactly once, as the last step, and returns that iterator; every predicate handed to a selector consults is_enabled / is_alive / pick_predicate. Completeness and the relative order of groups are properties of iterator contents and are not decided.",
+            "Static, thin: every selection from the whole cluster in pick()/fallback() is reachable only through the true outcome of is_datacenter_failover_possible or `no preferred DC`; the LWT arms never reach shuffling/random choice and ask for the deterministic order; fallback() de-duplicates exactly once, as the last step, and returns that iterator; every predicate handed to a selector consults is_enabled / is_alive / pick_predicate; in pick() no liveness-restricted selection is attempted after one that accepts down nodes, and in fallback() no liveness-filtered group is chained after a group that may contain down nodes (live before down). Completeness and the order among live groups are properties of iterator contents and are not decided.",
             "Trusts rustc MIR and itertools::unique_by semantics.",
             "DESIGN.md §3 C05"),
     "C06": ("MIR abstract-state dataflow over the retry decision tables + CFG cut rules on the retry loop",
@@ -42,7 +42,7 @@ CLAIMED = {
             "Trusts rustc MIR; anchors are roles (read_buf loop, try_join result, oneshot sends) and fail closed when rewritten.",
             "DESIGN.md §3 C10"),
     "C12": ("def-use provenance at every RoutingInfo aggregate (through closure captures), dataflow regions in replicas_for_token, who-may-call on shard_of / ShardInfo, provenance of the pool bucket index",
-            "Static, glue only: every RoutingInfo's token is None or computed on the same prepared statement whose table spec and LWT flag it carries; tablet replicas take precedence over strategy-based lookup; the shard of a replica is computed only by the paired node's own sharder; the pool files a connection under the shard the server reported for it and the plan's shard selects the connection; every EXECUTE response feeds the tablet map. Correctness of the token, replica set, plan and shard arithmetic themselves is the business of C03/C04/C05/C11.",
+            "Static, glue only: every RoutingInfo's token is None or computed on the same prepared statement whose table spec and LWT flag it carries; tablet replicas take precedence over strategy-based lookup; the shard of a replica is computed only by the paired node's own sharder; the pool files a connection under the shard the server reported for it and the plan's shard selects the connection; every EXECUTE response feeds the tablet map; every datacenter/rack criterion handed to replica selection in pick()/fallback() derives from the effective preference computed by routing_info() (policy-level, else inherited from the session). Correctness of the token, replica set, plan and shard arithmetic themselves is the business of C03/C04/C05/C11.",
             "Trusts rustc MIR; composition only.",
             "DESIGN.md §3 C12"),
     "C13": ("dataflow guards on the speculative loop of the pre-lowering coroutine (start sites vs. counter, exits vs. can_be_ignored / emptiness), who-may-call for the gate",
@@ -58,11 +58,11 @@ CLAIMED = {
             "Trusts rustc MIR; the rule compares siblings inside the crate rather than a frozen table.",
             "DESIGN.md §3 C15"),
     "C16": ("MIR analysis of macro-GENERATED code: a fixed family of derived structs is compiled under the fact driver; literal-arm to field/type tables, dataflow on the visited-flag accounting, positional tables of the ordered flavor",
-            "Static, wiring of the generated code only: for 14 structs covering flavor x rename x skip x flatten (two levels) x default_when_null x allow_missing x forbid_excess x skip_name_checks, every by-name arm selected by the literal L (de)serializes / type-checks exactly the field whose declared CQL name is L with its declared type, and the value decoded under L lands in that field; by-name row serializers report Done only where remaining_count == 0 and decrement it once per field under the visited flag; the ordered flavor serializes field i under expected name i with ENFORCE_NAME matching skip_name_checks. Behaviour under all permutations / missing / extra patterns needs execution and is not decided.",
+            "Static, wiring of the generated code only: for 15 structs covering flavor x rename x skip x flatten (two levels) x default_when_null x allow_missing x forbid_excess x skip_name_checks, every by-name arm selected by the literal L (de)serializes / type-checks exactly the field whose declared CQL name is L with its declared type, and the value decoded under L lands in that field; by-name row serializers report Done only where remaining_count == 0 and decrement it once per field under the visited flag; the ordered flavor serializes field i under expected name i with ENFORCE_NAME matching skip_name_checks, and the ordered UDT deserializer consumes a CQL field's value (deserialize it, or replace it by Default because it is null) only where the name comparison in force is the Rust field's own name. Behaviour under all permutations / missing / extra patterns needs execution and is not decided.",
             "Trusts rustc MIR; the family is a fixed sample; the sidecar table mirrors its declarations.",
             "DESIGN.md §3 C16"),
     "C17": ("MIR abstract-state dataflow over ColumnType/NativeType/CollectionType discriminants: may-return-Ok shape sets of every serialize/type_check impl vs. a reference matrix; dominance/cut rules on add_value and TypedRowIterator::new",
-            "Static, whole matrix at once: for each of the ~55 SerializeValue and ~60 DeserializeValue impls of scylla-cql-core the exact set of column-type shapes under which serialize / type_check can return Ok is extracted (through helper gates, delegations and `?`), compared cell by cell with the documented matrix and between the two directions; no CellWriter call is reachable under a rejected shape; add_value's error edge restores the pre-serialisation length and element_count moves only on the Ok edge; TypedRowIterator is only built after R::type_check succeeded. Value-dependent checks inside dynamic CqlValue serialisation (e.g. UDT field-name accounting) are not decided.",
+            "Static, whole matrix at once: for each of the ~55 SerializeValue and ~60 DeserializeValue impls of scylla-cql-core the exact set of column-type shapes under which serialize / type_check can return Ok is extracted (through helper gates, delegations and `?`), compared cell by cell with the documented matrix and between the two directions; no CellWriter call is reachable under a rejected shape; add_value's error edge restores the pre-serialisation length and element_count moves only on the Ok edge; TypedRowIterator is only built after R::type_check succeeded; the WrittenCellProof token every serialize() must return is minted only by the four cell-finishing writers, after they appended / back-patched the cell. Value-dependent checks inside dynamic CqlValue serialisation (e.g. UDT field-name accounting) are not decided.",
             "Trusts rustc MIR; reference matrix transcribed from docs/source/data-types; third-party impls out of scope.",
             "DESIGN.md §3 C17"),
     "C18": ("MIR who-writes census on the atomic + dataflow/dominance on the CAS loop and compute_next exits + call-graph provenance of the frame timestamp",
